@@ -115,6 +115,11 @@ Proof.
   rewrite insert_sorted_stable. cbn [filter]. now rewrite IH.
 Qed.
 
+Lemma stable_sort_facts ks :
+  Permutation (stable_sort ks) ks /\ StronglySorted key_le (stable_sort ks) /\
+  (forall k, filter (has_key k) (stable_sort ks) = filter (has_key k) ks).
+Proof. repeat split; [apply stable_sort_perm|apply stable_sort_strongly_sorted|intros k; apply stable_sort_stable]. Qed.
+
 (* ---- what SORT does to the interpreter *)
 Lemma sort_keys_snd st : forall keys ks, sort_keys st keys = Ok ks -> map snd ks = keys.
 Proof.
